@@ -55,6 +55,11 @@ CHECKS = {
     technique="TLA+/PlusCal model of the camera's streamer/controller/caller threads checked by TLC (safety + liveness under fairness) and TLC trace validation (SimCamStreamObs) of the real simulated.camera.c executed under a deterministic scheduler",
     text="SimCamStream models simulated.camera.c's streamer, trigger, start/stop and get_frame at scheduling-point granularity (lock, both condition variables, unlocked flag reads where the code has them); TLC checks ids strictly increasing, trigger gating, no stale frame and, under fairness, that stop returns and releases a pending frame call. The real camera code runs under the deterministic scheduler (random/PCT/starvation schedules, spurious wake-ups, trigger toggled while live, up to 3 restarts) with a hang oracle; every call trace, ordered by linearization points taken under the camera lock, is judged by SimCamStreamObs in TLC.",
     note="Trusted: TLC; the deterministic scheduler's model of lock/cv/thread primitives; sequentially consistent unlocked flag accesses; client contract: start is not issued while a frame call of the previous run is in flight; trigger gating is judged only for runs during which the trigger setting stayed enabled (a disabling set fires the trigger by design)."),
+ "C08": dict(
+    category="model_checking", design_ref="DESIGN.md section 6 (C08), section 15",
+    technique="TLA+ observation specification (LifecycleObs) evaluated by TLC over recorded device-call traces of the real runtime driven by grammar-generated client programs under a deterministic scheduler",
+    text="Client programs generated from the usage grammar (configure with any of 7 device assignments over 2 cameras x 2 storages incl. none / swapped / re-configure while running, start, start while running, zero-configuration start, trigger, map/unmap, stop, abort, get_state, shutdown; 4-14 calls) drive the real runtime under seeded random/PCT/starvation schedules; the mock driver numbers every opened handle and LifecycleObs (TLC) requires per handle: start only when not running, exactly one stop per start, append/frame only between start and stop, exactly one close (by shutdown at the latest), nothing after close or after shutdown; Running only while a worker is alive, Armed after stop/abort.",
+    note="Trusted: as the pipeline checks. Well-formedness assumptions stated in DESIGN.md: a stream is not switched to a DIFFERENT device while its acquisition runs; a client that has mapped a stream keeps polling until the acquisition is over before calling stop."),
 }
 
 def main():
